@@ -84,3 +84,24 @@ package filesystem
 //@   props C18
 //@   requires fsdb != nil
 //@   ensures err == nil && p == (if has(fsdb.profiles, name) then fsdb.profiles[name] else nil)
+
+// importPem: what ReadPem found is taken over; a key wins over a request (C14)
+//@ func (*FsDb).importPem returns (res)
+//@   props C14 C20
+//@   ghostret PEM gopki/generator/cert.PemFileContent = callres("gopki/generator/cert.ReadPem", 1, 0)
+//@   ensures @C14 res.Certificate == PEM.Certificate && res.PrivateKey == PEM.PrivateKey && res.Request == (if PEM.PrivateKey == nil then PEM.Request else nil)
+
+// importCertConfigFile (C18, C20): alias = explicit alias, else the base name of the config path; a second file for
+// an existing alias is an error; a new alias is entered into configs, metadata, artifacts and exactly one of the root
+// list / its issuer's subscriber list. No index or slice expression can fail, whatever the artifact file contains.
+//@ func (*FsDb).importCertConfigFile returns (err)
+//@   bounded TestVerifBoundedArtifactBytes
+//@   props C18 C20
+//@   uses strings.smt2
+//@   requires MAPS
+//@   requires forall a string :: has(fsdb.fsMetadata, a) ==> fsdb.fsMetadata[a] != nil && contains(deref(fsdb.fsMetadata[a]).configFileName, ".")
+//@   requires contains(configPath, ".") && lastIndex(configPath, "/") < lastIndex(configPath, ".")
+//@   noframe
+//@   let ALIAS = (if certContent.Alias != "" then certContent.Alias else strSlice(configPath, lastIndex(configPath, "/") + 1, lastIndex(configPath, ".")))
+//@   ensures @C18 old(has(fsdb.fsMetadata, ALIAS)) && old(deref(fsdb.fsMetadata[ALIAS]).configFileName) != configPath ==> err != nil
+//@   ensures @C18 !old(has(fsdb.fsMetadata, ALIAS)) ==> err == nil && has(fsdb.configs, ALIAS) && fsdb.configs[ALIAS] != nil && deref(fsdb.configs[ALIAS]).Alias == ALIAS && has(fsdb.fsMetadata, ALIAS) && fsdb.fsMetadata[ALIAS] != nil && deref(fsdb.fsMetadata[ALIAS]).configFileName == configPath && has(fsdb.artifacts, ALIAS) && fsdb.artifacts[ALIAS] != nil
